@@ -85,6 +85,9 @@ def check_partial(case, ctx):
     fired = False
     for o in case["options"]:
         r = ref.run(o)
+        if "coalesce-member-raised" in r.labels and "no-coalesce-raising-member" in ctx.flags:
+            ctx.exclude("no-coalesce-raising-member")
+            continue
         G = build(spec)
         val = run(G.root.validate, o)
         ev = run(G.root.evaluate, o)
